@@ -525,22 +525,22 @@ class Explorer:
         """Retry an ``unknown`` query: fresh solvers with other seeds/tactics, then cvc5 (unsat only)."""
         t = time.time()
         try:
-            for mk in (lambda: z3.SolverFor("QF_NRA"), lambda: z3.Tactic("qfnra-nlsat").solver(),
-                       lambda: z3.Solver()):
-                for seed in (0, 7):
+            rungs = [(lambda: z3.SolverFor("QF_NRA"), {}), (lambda: z3.Tactic("qfnra-nlsat").solver(), {}),
+                     (lambda: z3.Solver(), {"random_seed": 7}), (lambda: z3.SolverFor("QF_NRA"), {"random_seed": 11})]
+            for mk, extra in rungs:
+                try:
                     s = mk()
-                    s.set("rlimit", self.refine_rlimit)
                     s.set("timeout", TIMEOUT_MS)
-                    try:
-                        s.set("random_seed", seed)
-                    except z3.Z3Exception:
-                        pass
+                    for k, v in extra.items():
+                        s.set(k, v)
                     s.add(*assertions)
                     r = s.check()
-                    if r == z3.sat:
-                        return r, s.model()
-                    if r == z3.unsat:
-                        return r, None
+                except z3.Z3Exception:
+                    continue
+                if r == z3.sat:
+                    return r, s.model()
+                if r == z3.unsat:
+                    return r, None
             try:
                 import cvc5
                 from cvc5 import Kind  # noqa: F401
